@@ -282,7 +282,8 @@ Proof.
   intros (Hh & Hs & Gh & Gs). destruct o as [b| |ok|ks mn mx|ks|k| |]; cbn [step].
   - unfold write_multi. destruct (over_limit s b); [cbn; repeat split; assumption|].
     destruct (write_loop b (hot s) (size s + batch_size b) false) as [[st sz] werr] eqn:W.
-    apply write_loop_gap in W as [Wg Wn]. cbn. repeat split; try tauto. lia.
+    apply write_loop_gap in W as [Wg Wn]. cbn [fst hot snap size snapsize].
+    repeat split; [tauto|assumption|lia|assumption].
   - unfold do_snapshot. destruct (snapshotting s); [cbn; repeat split; assumption|].
     destruct (0 <? snapsize s) eqn:E; cbn; repeat split; try assumption.
     + constructor.
@@ -341,7 +342,8 @@ Proof.
   intros (Hh & Hs & Gh & Gs) R. destruct o as [b| |ok|ks mn mx|ks|k| |]; cbn [step].
   - unfold write_multi. destruct (over_limit s b); [cbn; repeat split; assumption|].
     destruct (write_loop b (hot s) (size s + batch_size b) false) as [[st sz] werr] eqn:W.
-    apply write_loop_gap in W as [Wg Wn]. cbn. repeat split; try tauto. lia.
+    apply write_loop_gap in W as [Wg Wn]. cbn [fst hot snap size snapsize].
+    repeat split; [tauto|assumption|lia|assumption].
   - unfold do_snapshot. destruct (snapshotting s); [cbn; repeat split; assumption|].
     destruct (0 <? snapsize s) eqn:E; cbn; repeat split; try assumption.
     + constructor.
